@@ -340,6 +340,7 @@ def respell(tree, ann, rng, kinds):
                 inc_paths.add(other)
         info["xinclude"] = True
     files = {}
+    counter = [0]
 
     # ---------------- printing
     def filler(eligible):
@@ -402,6 +403,13 @@ def respell(tree, ann, rng, kinds):
                     declare(prefix_of[u], u)
             if unused and unused[0] not in scope:
                 declare(*unused)
+        elif unused and rng.random() < 0.5:
+            # a fresh, unused declaration on an inner element: its own prefix map is not empty, the
+            # ancestors' declarations must still be in scope
+            counter[0] += 1
+            up = "u%d" % counter[0]
+            if up not in scope and up not in used:
+                declare(up, "urn:unused:%d" % counter[0])
 
         def prefix_for(u):
             p = prefix_of[u]
@@ -411,12 +419,30 @@ def respell(tree, ann, rng, kinds):
 
         # element name
         u, local = split_clark(n["q"])
+        # a childless element with QName content may carry a default namespace of its own, chosen
+        # for the content: `<p:e xmlns="urn:q">n1</p:e>` says {urn:q}n1
+        local_default = None
+        if "default" in kinds and not n["c"] and u is not None and u != XML_NS:
+            toks = []
+            for k, v in n["a"]:
+                if k == XSI_TYPE or k in a.get("qattrs", ()):
+                    toks += v.split()
+            if a.get("qtext") and n["t"]:
+                toks += n["t"].split()
+            rs = [resolve_lex(t_, nsd) for t_ in toks]
+            cands = [r[0] for r in rs if r[0] not in ("clark", None)]
+            if cands and all(r[0] is not None for r in rs) and rng.random() < 0.6:
+                local_default = rng.choice(cands)
+                if scope.get(None) != local_default:
+                    declare(None, local_default)
         if u is None:
             if scope.get(None):
                 declare(None, "")
             name = local
         elif u == XML_NS:
             name = "xml:" + local
+        elif local_default is not None:
+            name = local if u == local_default else prefix_for(u) + ":" + local
         elif default_uri == u:
             # lazily: an element of the chosen namespace (re)declares it as the default
             if scope.get(None) != u:
@@ -439,7 +465,7 @@ def respell(tree, ann, rng, kinds):
                         if scope.get(None):
                             raise Skip("local QName under a default namespace")
                         toks.append(r[1])
-                    elif scope.get(None) == r[0] and rng.random() < 0.5:
+                    elif scope.get(None) == r[0] and rng.random() < (0.9 if local_default else 0.5):
                         toks.append(r[1])
                     else:
                         toks.append(prefix_for(r[0]) + ":" + r[1])
@@ -462,7 +488,7 @@ def respell(tree, ann, rng, kinds):
                     if scope.get(None):
                         raise Skip("local QName under a default namespace")
                     toks.append(r[1])
-                elif scope.get(None) == r[0] and rng.random() < 0.5:
+                elif scope.get(None) == r[0] and rng.random() < (0.9 if local_default else 0.5):
                     toks.append(r[1])
                 else:
                     toks.append(prefix_for(r[0]) + ":" + r[1])
